@@ -53,10 +53,82 @@ class InfeasiblePeriod(BoundedCheck):
         return out
 
 
+class CheckListHistory(BoundedCheck):
+    """Histories on the instance's own lists: whatever is done in place to model.check (or the class-level lists), solving a period changes no
+    exogenous variable, parameter or error and no other period."""
+    name = 'c04.check-list-history'
+    props = ('C04',)
+    bound_quick = ('parser-built models (CHECK is ENDOGENOUS at class level) and hand-written ones (separate lists); in-place edits of instance.check '
+                   '(append exogenous name / remove / reverse) before solve_t at every feasible period with offset in {0, -1, 1}')
+    bound_thorough = bound_quick
+    required_covers = ('solved',)
+
+    def cases(self, tier, seed):
+        for script in ('Y = C + G\nC = {alpha} * Y[-1] + <eps>', 'Y = Y[-1] + G[1]'):
+            for edit in ('none', 'append-exogenous', 'append-parameter', 'reverse', 'clear-and-refill'):
+                for offset in (0, -1, 1):
+                    for build in ('parser', 'hand'):
+                        yield {'script': script, 'edit': edit, 'offset': offset, 'build': build}
+
+    def check(self, case, res):
+        import warnings
+        import fsic
+        out = []
+        symbols = fsic.parse_model(case['script'])
+        Model = fsic.build_model(symbols)
+        if case['build'] == 'hand':
+            class Hand(Model):
+                ENDOGENOUS = list(Model.ENDOGENOUS)
+                CHECK = list(Model.CHECK)
+            Model = Hand
+        n = 7
+        m = Model(list(range(n)), alpha=0.5)
+        non_endog = [x for x in m.names if x not in Model.ENDOGENOUS]
+        for i, x in enumerate(non_endog):
+            m[x] = [10.0 * (i + 1) + p for p in range(n)]
+        if case['edit'] == 'append-exogenous':
+            m.check.append('G')
+        elif case['edit'] == 'append-parameter' and 'alpha' in m.names:
+            m.check.append('alpha')
+        elif case['edit'] == 'reverse':
+            m.check.reverse()
+        elif case['edit'] == 'clear-and-refill':
+            keep = list(m.check)
+            m.check.clear()
+            m.check.extend(keep[:1])
+        endog_before = list(m.endogenous)
+        for t in range(Model.LAGS + 1, n - 1 - Model.LEADS):
+            before = {x: m[x].copy() for x in m.names}
+            res.nontrivial.add((case['script'], case['edit'], case['offset'], case['build'], t))
+            with warnings.catch_warnings():
+                warnings.simplefilter('ignore')
+                try:
+                    m.solve_t(t, offset=case['offset'], max_iter=5, failures='ignore', errors='ignore')
+                    res.cover('solved')
+                except Exception as ex:  # noqa: BLE001
+                    out.append(Violation('a feasible period is solved', 'c04.history-exception', dict(case, t=t), 'solved', f'{type(ex).__name__}: {ex}'))
+                    break
+            for x in m.names:
+                for p in range(n):
+                    if (x in Model.ENDOGENOUS and p == t):
+                        continue
+                    a, b = m[x][p], before[x][p]
+                    if not (a == b or (a != a and b != b)):
+                        out.append(Violation('solving period t never changes exogenous variables, parameters or errors anywhere, nor any other period',
+                                             'c04.history-frame', dict(case, t=t), f'{x}[{p}]={b}', f'{x}[{p}]={a}', 'frame'))
+                        return out
+        if list(m.endogenous) != endog_before or list(Model.ENDOGENOUS) != [s_ for s_ in Model.ENDOGENOUS]:
+            out.append(Violation('the list of endogenous variables is not changed by editing the check list or by solving', 'c04.history-endogenous',
+                                 case, endog_before, list(m.endogenous)))
+        return out
+
+
+from contracts.c11_copy import InitOwnership
+
 PROPERTY = PropertySpec(
     id='C04',
-    contracts=[_c, SolveContract(), ProgramsContract(catalogue(os.environ.get('VERIF_TIER', 'quick'), int(os.environ.get('VERIF_SEED', '0'))))],
-    bounded=[SolveTScripted(), EvaluateDifferential(), InfeasiblePeriod()],
+    contracts=[_c, SolveContract(), InitOwnership('model'), ProgramsContract(catalogue(os.environ.get('VERIF_TIER', 'quick'), int(os.environ.get('VERIF_SEED', '0'))))],
+    bounded=[SolveTScripted(), EvaluateDifferential(), InfeasiblePeriod(), CheckListHistory()],
     level='other',
     explanation='Frame obligations of BaseModel.solve_t from its real source: status/iterations change only at t; the three up-front '
                 'rejections leave the whole state unchanged; under the parser-built interface contract (an evaluation pass writes only '
